@@ -713,6 +713,17 @@ func (v *FnV) spCall(st *State, e *SExpr, sc *Scope) Value {
 			st.assume(v.c.sindexFacts(v, a.S, b.S))
 		}
 		return Value{T: tInt, S: sx("sindex", a.S, b.S)}
+	case "bigval":
+		// mathematical value of a *big.Int (ghost heap of the math/big model)
+		a := arg(0)
+		return Value{T: nil, S: v.bigInt(st, a.S)}
+	case "ratnum_times", "rat_eq_frac":
+		// rat_eq_frac(p, n, d): the *big.Rat p has the value n/d (d != 0), stated without division
+		a := arg(0)
+		n, d := arg(1), arg(2)
+		return Value{T: tBool, S: sEq(sx("*", v.bigRat(st, a.S), sx("to_real", d.S)), sx("to_real", n.S))}
+	case "rat_is_zero":
+		return Value{T: tBool, S: sEq(v.bigRat(st, arg(0).S), "0.0")}
 	case "strlt":
 		v.c.strLtFns()
 		return Value{T: tBool, S: sx("str_lt", arg(0).S, arg(1).S)}
